@@ -22,6 +22,7 @@ fn main() {
         let code = props::child_main(&args[2..]);
         std::process::exit(code);
     }
+    common::out_filter_install();
     let prop = args[1].clone();
     let mut tier = match std::env::var("VERIF_TIER").ok().as_deref() {
         Some("thorough") => Tier::Thorough,
@@ -65,5 +66,5 @@ fn main() {
     } else {
         props::run(&ctx)
     };
-    std::process::exit(code);
+    common::exit_process(code);
 }
